@@ -1540,9 +1540,12 @@ class Message(ABC):
         defaults = self._betterproto.default_gen
         for field_name, meta in self._betterproto.meta_by_field_name.items():
             field_is_repeated = defaults[field_name] is list
-            try:
-                value = getattr(self, field_name)
-            except AttributeError:
+            value = self.__raw_get(field_name)
+            if value is PLACEHOLDER or (
+                meta.group and self._group_current[meta.group] != field_name
+            ):
+                # Unset, or not the selected member of its group. Reading must
+                # not store the default in the message.
                 value = self._get_field_default(field_name)
             cased_name = casing(field_name).rstrip("_")  # type: ignore
             if meta.proto_type == TYPE_MESSAGE:
